@@ -28,6 +28,8 @@ EXPLANATION = (
     "undecided. The identifier a table splits along (RoutingTable.my_node_id) is written only while the table is "
     "constructed; every caller of Bucket.generate_id() calls it on a bucket that is current at the call (not on a loop "
     "variable left over from a loop that does not contain the call), so the id refreshes the bucket that is stamped. "
+    "Every use of the trie in RoutingTable.add's call tree (the bucket lookup included) lies inside one `with self.lock:` "
+    "region, so lookup, split and write-back are atomic with respect to other threads. "
     "Entries leave a node table only in Bucket.add (eviction from a full bucket) and - BAD nodes only - in "
     "remove_bad_nodes or a method it delegates to (every other function of the module that removes entries is held to "
     "the BAD-only condition, a remover keyed by a parameter is decided in its callers' call trees). "
@@ -456,6 +458,20 @@ def _view(ctx: Ctx, fi: FuncInfo) -> FuncInfo:
 
 
 # ----------------------------------------------------------------------------------- callee resolution, frames
+def _rt_function(ctx: Ctx, name: str) -> FuncInfo:
+    """The module-level function `name` of dht/routing.py - where it is defined, or (moved to another module of the
+    repository and imported back under the same name) the function the import denotes."""
+    m = ctx.repo.module(RT)
+    g = m.functions.get(name)
+    if g is None and name in m.imports:
+        r = ctx.repo.resolve_name(m, name)
+        if isinstance(r, FuncInfo) and r.cls is None:
+            g = r
+    if g is None:
+        raise AnalysisError(f"anchor-lost: function {name} in {RT}")
+    return g
+
+
 def _info_for(ctx: Ctx, node, fi: FuncInfo) -> FuncInfo:
     got = getattr(node, "_info", None)
     if got is not None:
@@ -494,7 +510,17 @@ def _callee(ctx: Ctx, fi: FuncInfo, call: ast.Call):
         g = fi.module.functions.get(f.id)
         if g is not None:
             return g, False
+        if f.id in fi.module.imports and f.id not in fi.params() and not local_defs(fi, f.id):
+            g = ctx.repo.resolve_name(fi.module, f.id)                    # a helper that lives in another module of the repository
+            if isinstance(g, FuncInfo):
+                return g, False
         return None, False
+    if isinstance(f, ast.Attribute) and isinstance(f.value, ast.Name) and f.value.id in fi.module.imports and f.value.id not in fi.params() \
+            and not local_defs(fi, f.value.id):
+        r = ctx.repo.resolve_name(fi.module, f.value.id)                  # helpers_module.helper(...)
+        if isinstance(r, tuple) and r[0] == "module" and r[1] is not None:
+            g = r[1].functions.get(f.attr)
+            return (g, False) if g is not None else (None, False)
     if isinstance(f, ast.Attribute) and isinstance(f.value, ast.Name) and fi.cls is not None:
         if f.value.id in ("self", "cls") or f.value.id == fi.cls.name:
             m = fi.cls.lookup(f.attr)
@@ -513,6 +539,34 @@ def _callee(ctx: Ctx, fi: FuncInfo, call: ast.Call):
             if not ({"staticmethod", "classmethod"} & set(m.decorator_names())) and m.params():
                 return m, True
     return None, False
+
+
+def _anchor_method(ctx: Ctx, clsname: str, meth: str) -> FuncInfo:
+    """The reviewed method - or, when it became a thin delegation (its whole body, apart from the docstring and an
+    enclosing `with <attribute>:`, is `return <helper>(<its own parameters, each once, under the same names>)`), the
+    helper that now holds the body: method of the same class / a base class, or a function taking the object.  The names
+    of the functions passed through are kept (a recursive call of any of them re-enters the same body)."""
+    fi = ctx.repo.method(clsname, meth, RT)
+    names = {fi.name}
+    for _ in range(3):
+        body = [st for st in fi.node.body if not (isinstance(st, ast.Expr) and isinstance(st.value, ast.Constant))]
+        while len(body) == 1 and isinstance(body[0], ast.With) and all(isinstance(strip_cast(it.context_expr), ast.Attribute) and it.optional_vars is None
+                                                                       for it in body[0].items):
+            body = body[0].body
+        if not (len(body) == 1 and isinstance(body[0], ast.Return) and isinstance(body[0].value, ast.Call)):
+            break
+        call = body[0].value
+        target, binds_self = _callee(ctx, fi, call)
+        if not isinstance(target, FuncInfo) or target.node is fi.node or target.is_async != fi.is_async or _is_generator(target.node):
+            break
+        env = _bind_args(target.node, call, binds_self)
+        if env is None or set(env) != set(target.params()) or target.params() != fi.params() \
+                or not all(isinstance(v, ast.Name) and v.id == k for k, v in env.items()):
+            break
+        fi = target
+        names.add(fi.name)
+    ctx.extra.setdefault("c14_reentry", {})[id(fi.node)] = names
+    return fi
 
 
 def _expr_class(fi: FuncInfo, e: ast.AST, depth: int = 3) -> str | None:
@@ -1985,7 +2039,7 @@ def _int_of_bytes(e: ast.AST, p: str, ctx: Ctx | None = None, depth: int = 2, la
     if ctx is not None and depth > 0 and isinstance(e.func, ast.Name) and len(e.args) == 1 and not e.keywords and is_p(e.args[0]):
         g = ctx.repo.module(RT).functions.get(e.func.id)
         if g is not None and len(g.params()) == 1 and not _is_generator(g.node):
-            alts = _return_alternatives(g)
+            alts = _return_alternatives(g, ctx)
             return bool(alts) and all(_int_of_bytes(a, g.params()[0], ctx, depth - 1, lax) for a in alts)
     if c == "int" and len(e.args) == 2 and (lax or const_value(e.args[1]) == 16) and not e.keywords:
         h = strip_cast(e.args[0])
@@ -2058,8 +2112,11 @@ def _is_bin160(e: ast.AST, p: str, ctx: Ctx | None = None, lax: bool = False) ->
     return False
 
 
-def _return_alternatives(fi: FuncInfo) -> list[ast.AST]:
-    """The value of every return of fi as an expression over parameters / attributes, conditional expressions split."""
+def _return_alternatives(fi: FuncInfo, ctx: Ctx | None = None) -> list[ast.AST]:
+    """The value of every return of fi as an expression over parameters / attributes, conditional expressions split;
+    with ctx: constants of the program (module-level names, derived widths) replaced by their values."""
+    if ctx is not None:
+        return [_fold_consts(ctx, fi, v) for v in _return_alternatives(fi)]
     rets = [r for r in walk_no_nested(fi.node) if isinstance(r, ast.Return)]
     try:
         values = _sym_returns(fi)
@@ -2186,6 +2243,23 @@ def _len_vs_max(f: Fact, recv: str) -> str | None:
     return None
 
 
+def _table_functions(ctx: Ctx) -> list[FuncInfo]:
+    """Every function that belongs to the routing table's code: those of dht/routing.py and those of the repository
+    modules it imports FUNCTIONS from (a helper that moved to another module is still part of the closed set of
+    functions that may touch a bucket's node table)."""
+    rtm = ctx.repo.module(RT)
+    out = list(rtm.all_functions)
+    seen = {id(rtm)}
+    for name in rtm.imports:
+        r = ctx.repo.resolve_name(rtm, name)
+        mods = [r.module] if isinstance(r, FuncInfo) else ([r[1]] if isinstance(r, tuple) and r[0] == "module" and r[1] is not None else [])
+        for m in mods:
+            if id(m) not in seen and m.relpath.startswith("ipv8/dht/"):
+                seen.add(id(m))
+                out.extend(m.all_functions)
+    return out
+
+
 def _nodes_base(fr: _Frame, e: ast.AST) -> str | None:
     """e is `<recv>.nodes` (after translation): the receiver text"""
     t = fr.tr(e)
@@ -2228,7 +2302,7 @@ def _nodes_insertions(cl: _Closure) -> list[tuple[_Frame, ast.AST, str, ast.AST 
 
 def rule_bucket(ctx: Ctx) -> None:
     repo = ctx.repo
-    add = repo.method("Bucket", "add", RT)
+    add = _anchor_method(ctx, "Bucket", "add")
     node = add.params()[1]
     cl = _Closure(ctx, add, stop=(node,))
     ins = _nodes_insertions(cl)
@@ -2253,24 +2327,24 @@ def rule_bucket(ctx: Ctx) -> None:
 
     def called_in_module(name: str) -> bool:
         return any(isinstance(n, ast.Call) and call_name(n) == name for n in ast.walk(rt_module.tree))
-    for fi in rt_module.all_functions:
+    for fi in _table_functions(ctx):
         if id(fi.node) in cl.visited or any(id(a) in cl.visited for a in ancestors(fi.node)):
             continue
-        if fi.name.startswith("_") and not fi.name.startswith("__") and not called_in_module(fi.name):
+        if fi.module is rt_module and fi.name.startswith("_") and not fi.name.startswith("__") and not called_in_module(fi.name):
             continue        # a private helper nothing in this module calls (its body was inlined at its call sites by the engine, where it is checked)
         other = _Closure(ctx, fi, maxdepth=0)
         for fr, s, recv, k, v in _nodes_insertions(other):
             ctx.check(False, "bucket-insert", fi, s, f"bucket contents written in {fi.qualname}",
                       "a node is put into a bucket's node table outside Bucket.add: neither the ownership nor the capacity guard applies")
-    owns = repo.method("Bucket", "owns", RT)
-    alts = _return_alternatives(owns)
+    owns = _anchor_method(ctx, "Bucket", "owns")
+    alts = _return_alternatives(owns, ctx)
     two = len(owns.params()) == 2
     state = _tri(bool(alts) and two and all(_is_prefix_test(v, owns.params()[1]) for v in alts),
                  bool(alts) and two and all(_is_prefix_test(v, owns.params()[1], lax=True) for v in alts))
     _verdict(ctx, state, "bucket-insert", owns, owns.node, "owns(id) = binary(id).startswith(prefix_id)", "bucket ownership is no longer the prefix test on the binary id",
              unknown="Bucket.owns is not written as a prefix test on the binary rendering (startswith / slice comparison / zip): that it equals one is not decided")
-    ib = repo.func(RT, "id_to_binary_string")
-    alts = _return_alternatives(ib)
+    ib = _rt_function(ctx, "id_to_binary_string")
+    alts = _return_alternatives(ib, ctx)
     state = _tri(bool(alts) and all(_is_bin160(v, ib.params()[0], ctx) for v in alts), bool(alts) and all(_is_bin160(v, ib.params()[0], ctx, lax=True) for v in alts))
     if state is None and len(ib.params()) == 1:
         # not a known spelling: evaluated for sample 20-byte ids (pure integer / bytes / string arithmetic only)
@@ -2381,7 +2455,7 @@ def _split_index(cl: _Closure, fr: _Frame, v: ast.AST, recv: str, site: ast.AST,
         return None
     if isinstance(v, ast.Attribute) and isinstance(v.ctx, ast.Load) and _denotes_split(cl, fr, v.value, site, recv) is True:
         # split() returns a NamedTuple: the field read is the element at the field's position
-        sf = cl.ctx.repo.method("Bucket", "split", RT)
+        sf = _anchor_method(cl.ctx, "Bucket", "split")
         names = {r.value.func.id for r in walk_no_nested(sf.node) if isinstance(r, ast.Return) and isinstance(r.value, ast.Call) and isinstance(r.value.func, ast.Name)}
         fields = _namedtuple_fields(sf, next(iter(names))) if len(names) == 1 else None
         if fields is not None and len(fields) == 2 and v.attr in fields:
@@ -2531,7 +2605,7 @@ def _first_truthy(e: ast.AST) -> ast.BoolOp | None:
 
 
 def _check_get_bucket(ctx: Ctx) -> None:
-    gb = ctx.repo.method("RoutingTable", "get_bucket", RT)
+    gb = _anchor_method(ctx, "RoutingTable", "get_bucket")
     p = gb.params()[1]
     cfg = ctx.cfg(gb)
     rets = [r for r in walk_no_nested(gb.node) if isinstance(r, ast.Return)]
@@ -2595,7 +2669,7 @@ def _check_get_bucket(ctx: Ctx) -> None:
 
 
 def _check_bucket_split(ctx: Ctx) -> None:
-    sf = ctx.repo.method("Bucket", "split", RT)
+    sf = _anchor_method(ctx, "Bucket", "split")
     rets = [r for r in walk_no_nested(sf.node) if isinstance(r, ast.Return) and r.value is not None and const_value(r.value) is not None]
 
     def child_bit(e: ast.AST) -> str | None:
@@ -2654,8 +2728,17 @@ def _check_bucket_split(ctx: Ctx) -> None:
     _verdict(ctx, state, "split-partition", sf, rets[0] if rets else sf.node, "Bucket.split returns (prefix+'0', prefix+'1') children of the same capacity",
              f"Bucket.split children are {got}", unknown="the pair returned by Bucket.split cannot be traced to two Bucket(prefix + bit, max_size) constructions")
     # redistribution: every node of the parent is offered to the children; a child takes it only if it owns its id
-    loops = [l for l in walk_no_nested(sf.node) if isinstance(l, ast.For)
-             and norm(_strip_snapshot(resolve(sf, _strip_snapshot(l.iter)))) in ("self.nodes.values()", "self.nodes.items()")]
+    cl = _Closure(ctx, sf)
+
+    def visits_parent(fr: _Frame, it: ast.AST) -> bool:
+        """the iterated collection is (a snapshot of) the parent's node table - in split itself, or in a helper it hands the table to"""
+        it = _strip_snapshot(it)
+        if fr.parent is None:
+            it = _strip_snapshot(resolve(sf, it))
+        else:
+            it = _strip_snapshot(fr.tr(it))
+        return norm(_strip_snapshot(it)) in ("self.nodes.values()", "self.nodes.items()")
+    loops = [l for fr, l in cl.nodes if isinstance(l, ast.For) and visits_parent(fr, l.iter)]
     state = True if loops else None
     for l in loops:
         for x in ast.walk(l):
@@ -2664,7 +2747,6 @@ def _check_bucket_split(ctx: Ctx) -> None:
     _verdict(ctx, state, "split-partition", sf, loops[0] if loops else sf.node, "every node of the parent is redistributed", "split can lose nodes of the parent bucket",
              unknown="Bucket.split has no `for` loop over self.nodes.values() / items(): how the parent's nodes are visited is not recognised")
     moved = 0
-    cl = _Closure(ctx, sf)
 
     def known_child(fr: _Frame, recv: ast.AST) -> bool:
         """the receiver is a child by construction: a name bound to Bucket(prefix + bit, ...), or a loop / comprehension
@@ -2808,7 +2890,7 @@ def _key_of_bad_entry(ctx: Ctx, fr: _Frame, k: ast.AST, recv: str) -> bool:
 
 def rule_split(ctx: Ctx) -> None:
     repo = ctx.repo
-    add = repo.method("RoutingTable", "add", RT)
+    add = _anchor_method(ctx, "RoutingTable", "add")
     node = add.params()[1]
     # the bucket variable(s): receivers of split()
     pre = _Closure(ctx, add, stop=(node,), unroll=True)
@@ -2881,7 +2963,8 @@ def rule_split(ctx: Ctx) -> None:
              f"after a split the tree is not the two children replacing the parent: stores={desc} deletes={dk}",
              unknown=f"the trie updates after a split cannot be traced to `prefix + bit -> half` (stores={desc} deletes={dk})")
     # retry after split: the recursive self.add(node), or - in a loop - going round to fetch the bucket of the node again
-    retry = [(fr, c) for fr, c in cl.nodes if isinstance(c, ast.Call) and isinstance(c.func, ast.Attribute) and c.func.attr == "add"
+    reentry = ctx.extra.get("c14_reentry", {}).get(id(add.node), {"add"})
+    retry = [(fr, c) for fr, c in cl.nodes if isinstance(c, ast.Call) and isinstance(c.func, ast.Attribute) and c.func.attr in reentry
              and fr.ntr(c.func.value) == "self" and len(c.args) == 1 and fr.ntr(c.args[0]) == node]
     rcfg = ctx.cfg(cl.root.fi)
     targets = [x for fr, c in retry for x in rcfg.nodes_for(cl.lifted(fr, c, cl.root))]
@@ -2923,19 +3006,19 @@ def rule_split(ctx: Ctx) -> None:
                              for _m, g, _c in repo.callers_of_name(fi.name))
             ctx.check(inside, "split-partition", fi, enclosing_stmt(a),
                       f"trie written in {fi.qualname}", "the bucket tree is rewritten outside RoutingTable.add")
-    rb = repo.method("RoutingTable", "remove_bad_nodes", RT)
+    rb = _anchor_method(ctx, "RoutingTable", "remove_bad_nodes")
     clr = _Closure(ctx, rb)
     # entries leave a node table in Bucket.add (eviction from a full bucket, rule bucket-insert) and in remove_bad_nodes; any
     # other function of the module that takes entries out (a method remove_bad_nodes delegates to, ...) is held to the same
     # condition as remove_bad_nodes itself: only BAD nodes
-    badd = repo.method("Bucket", "add", RT)
+    badd = _anchor_method(ctx, "Bucket", "add")
     evicting = _Closure(ctx, badd, stop=(badd.params()[1],)).visited
     removers = [clr]
     rtm = repo.module(RT)
-    for fi in rtm.all_functions:
+    for fi in _table_functions(ctx):
         if any(id(x) in evicting or id(x) in clr.visited for x in [fi.node, *ancestors(fi.node)]):
             continue
-        if fi.name.startswith("_") and not fi.name.startswith("__") and not any(isinstance(n, ast.Call) and call_name(n) == fi.name for n in ast.walk(rtm.tree)):
+        if fi.module is rtm and fi.name.startswith("_") and not fi.name.startswith("__") and not any(isinstance(n, ast.Call) and call_name(n) == fi.name for n in ast.walk(rtm.tree)):
             continue        # a private helper nothing calls: inlined at its call sites by the engine and checked there
         other = _Closure(ctx, fi, maxdepth=0)
         if _nodes_removals(other):
@@ -3253,13 +3336,13 @@ def _key_is_distance_first(ctx: Ctx, fi: FuncInfo, key: ast.AST | None, target: 
             env = _bind_args(fn, call, binds_self)
             if env is None:
                 return False
-            alts = [_subst(fn.body, {})] if isinstance(tgt, ast.Lambda) else _return_alternatives(tgt)
+            alts = [_subst(fn.body, {})] if isinstance(tgt, ast.Lambda) else _return_alternatives(tgt, ctx)
             env = {p_: (_expand(fi, x) if not (isinstance(x, ast.Name) and x.id in ("self", "n@key", target)) else x) for p_, x in env.items()}
             return bool(alts) and all(_dist_first(_subst(a, env), "n@key", target) for a in alts)
         if isinstance(tgt, ast.Lambda):
             fn, body, p = tgt, tgt.body, [x.arg for x in tgt.args.args]
         elif isinstance(tgt, FuncInfo) and not _is_generator(tgt.node):
-            alts = _return_alternatives(tgt)
+            alts = _return_alternatives(tgt, ctx)
             ps = tgt.params()[1:] if binds_self else tgt.params()
             return bool(alts) and len(ps) == 1 and all(_dist_first(a, ps[0], target) for a in alts)
         else:
@@ -3270,7 +3353,7 @@ def _key_is_distance_first(ctx: Ctx, fi: FuncInfo, key: ast.AST | None, target: 
         tgt, binds_self = _callee(ctx, fi, inner)
         if isinstance(tgt, FuncInfo) and not _is_generator(tgt.node) and not tgt.is_async:
             env = _bind_args(tgt.node, inner, binds_self)
-            alts = _return_alternatives(tgt)
+            alts = _return_alternatives(tgt, ctx)
             if env is not None and alts:
                 env = {p_: (_expand(fi, x) if not (isinstance(x, ast.Name) and x.id in ("self", p[0], target)) else x) for p_, x in env.items()}
                 return all(_dist_first(_subst(a, env), p[0], target) for a in alts)
@@ -3303,7 +3386,7 @@ def _key_state(ctx: Ctx, fi: FuncInfo, key: ast.AST | None, target: str) -> bool
     if isinstance(tgt, ast.Lambda):
         return False
     if isinstance(tgt, FuncInfo) and not _is_generator(tgt.node):
-        alts = _return_alternatives(tgt)
+        alts = _return_alternatives(tgt, ctx)
         # a plain function of the node whose result visibly starts with something else than a distance
         if alts and all(isinstance(x, (ast.Tuple, ast.Attribute, ast.Call, ast.Compare, ast.BinOp)) for x in alts) \
                 and not any(isinstance(n, ast.Call) and not (chain(n.func) or "").endswith("distance") and _callee(ctx, tgt, n)[0] is not None for x in alts for n in ast.walk(x)):
@@ -3422,7 +3505,7 @@ def _ranked_prefix(ctx: Ctx, fi: FuncInfo, cfg, ret: ast.Return, target: str, k:
 
 def rule_closest(ctx: Ctx) -> None:
     repo = ctx.repo
-    fi = repo.method("RoutingTable", "closest_nodes", RT)
+    fi = _anchor_method(ctx, "RoutingTable", "closest_nodes")
     cfg = ctx.cfg(fi)
     target, k = fi.params()[1], fi.params()[2]
     rets = [r for r in walk_no_nested(fi.node) if isinstance(r, ast.Return)]
@@ -3440,8 +3523,8 @@ def rule_closest(ctx: Ctx) -> None:
              unknown="a returned value is not recognisable as sorted(<collection>, key=<distance first>)[:max_nodes] (or nsmallest / sort + slice)")
     coll_known = len(names) == 1
     coll = next(iter(names), None) or "nodes"
-    dist = repo.func(RT, "distance")
-    alts = _return_alternatives(dist)
+    dist = _rt_function(ctx, "distance")
+    alts = _return_alternatives(dist, ctx)
     a, b = dist.params()[:2]
     def xor_metric(x: ast.AST) -> bool:
         x = strip_cast(x)
@@ -3983,6 +4066,18 @@ def _pure_eval(e: ast.AST, env: dict, consts: dict, depth: int = 0):
             if isinstance(e.slice, ast.Slice):
                 return base[slice(*(ev(x) if x is not None else None for x in (e.slice.lower, e.slice.upper, e.slice.step)))]
             return base[ev(e.slice)]
+        if isinstance(e, ast.Attribute) and e.attr in ("size", "format"):
+            obj = ev(e.value)                                             # struct.Struct(fmt).size / .format: fixed by the format string
+            if isinstance(obj, _st.Struct):
+                return getattr(obj, e.attr)
+            raise _NotPure
+        if isinstance(e, ast.Attribute) and e.attr in ("digest_size", "block_size") and isinstance(e.value, ast.Call) and not e.value.args and not e.value.keywords:
+            import hashlib as _hl
+            c = chain(e.value.func) or ""
+            name = c[len("hashlib."):] if c.startswith("hashlib.") else c
+            if name in _hl.algorithms_guaranteed and not name.startswith("shake") and not (isinstance(e.value.func, ast.Name) and (name in env or name in consts)):
+                return getattr(getattr(_hl, name)(), e.attr)              # a property of the algorithm, not of any data
+            raise _NotPure
         if isinstance(e, ast.JoinedStr):
             out = ""
             for v in e.values:
@@ -4035,6 +4130,257 @@ def _pure_eval(e: ast.AST, env: dict, consts: dict, depth: int = 0):
     except Exception as ex:  # noqa: BLE001 - the expression raises for this value: it is not a rendering of it
         raise _NotPure from ex
     raise _NotPure
+
+
+# ----------------------------------------------------------------------------------- derived constants
+def _module_bindings(m, name: str) -> int:
+    """How often the module binds `name` at its top level (assignment targets, imports, def / class), +100 when any
+    function declares it global: a constant is bound exactly once."""
+    cache = m.__dict__.setdefault("_c14_bindings", {})
+    if name in cache:
+        return cache[name]
+    count = 0
+    for n in ast.walk(m.tree):
+        if isinstance(n, ast.Global) and name in n.names:
+            count += 100
+        elif isinstance(n, ast.Name) and n.id == name and isinstance(n.ctx, (ast.Store, ast.Del)):
+            if not any(isinstance(a, (*_FUNCS, ast.ClassDef, ast.Lambda, *_COMPS, ast.DictComp)) for a in ancestors(n)):
+                count += 1
+        elif isinstance(n, (ast.Import, ast.ImportFrom)) and not any(isinstance(a, (*_FUNCS, ast.ClassDef)) for a in ancestors(n)):
+            for al in n.names:
+                if (al.asname or al.name.split(".")[0]) == name:
+                    count += 1
+        elif isinstance(n, (*_FUNCS, ast.ClassDef)) and n.name == name and not any(isinstance(a, (*_FUNCS, ast.ClassDef)) for a in ancestors(n)):
+            count += 1
+    cache[name] = count
+    return count
+
+
+class _ConstMap:
+    """The module-level constants visible in module m (imports followed to the defining module) as a mapping name ->
+    expression for _pure_eval.  A name the module (or the defining module) binds more than once, or that a function
+    declares global, is not a constant; `hide` are the names a local scope shadows."""
+
+    def __init__(self, repo, m, hide=frozenset(), depth: int = 0, extra: dict | None = None):
+        self.repo, self.m, self.hide, self.depth, self.extra = repo, m, hide, depth, extra or {}
+
+    def _find(self, name: str):
+        if name in self.hide or self.depth > 6:
+            return None
+        if name in self.extra:                                            # the names of a class body, seen from inside that body
+            return self.m, self.extra[name]
+        if _module_bindings(self.m, name) != 1:
+            return None
+        r = self.repo.resolve_name(self.m, name)
+        if not (isinstance(r, tuple) and r[0] == "const"):
+            return None
+        owner, expr = r[1], r[2]
+        if owner is not self.m:
+            oname = next((k for k, v in owner.constants.items() if v is expr), None)
+            if oname is None or _module_bindings(owner, oname) != 1:
+                return None
+        return owner, expr
+
+    def __contains__(self, name) -> bool:
+        return isinstance(name, str) and self._find(name) is not None
+
+    def __getitem__(self, name):
+        found = self._find(name)
+        if found is None:
+            raise _NotPure
+        owner, expr = found
+        if owner is self.m:
+            return expr
+        v = _pure_eval(expr, {}, _ConstMap(self.repo, owner, frozenset(), self.depth + 1))   # evaluated where it is defined
+        if isinstance(v, (int, str, bytes, float, tuple)):
+            return ast.Constant(value=v)
+        raise _NotPure
+
+    def get(self, name, default=None):
+        try:
+            return self[name]
+        except _NotPure:
+            return default
+
+
+def _class_const(ctx: Ctx, ci, attr: str):
+    """Value of the class-level constant `attr` as seen on an instance / subclass of ci (int / str / bytes), or NOCONST:
+    bound once in one class body of the MRO, overridden by no subclass, never stored as an attribute anywhere in the
+    repository (so `self.attr` can only mean the class-level binding), evaluated in the namespace of the class body."""
+    owner = next((c for c in ci.mro() if attr in c.attrs), None)
+    if owner is None or any(attr in sc.attrs for sc in [*ci.all_subclasses(), *owner.all_subclasses()] if sc is not owner and sc not in ci.mro()):
+        return NOCONST
+    cache = ctx.extra.setdefault("c14_class_const", {})
+    key = (id(owner.node), attr)
+    if key in cache:
+        return cache[key]
+    cache[key] = NOCONST
+    bound = sum(1 for st in owner.node.body for t, _v in _assign_targets(st) if isinstance(t, ast.Name) and t.id == attr)
+    if bound != 1 or any(isinstance(n.ctx, (ast.Store, ast.Del)) for _m, _f, n in ctx.repo.attribute_uses(attr)):
+        return NOCONST
+    once = {k: v for k, v in owner.attrs.items()
+            if sum(1 for st in owner.node.body for t, _v in _assign_targets(st) if isinstance(t, ast.Name) and t.id == k) == 1}
+    try:
+        v = _pure_eval(owner.attrs[attr], {}, _ConstMap(ctx.repo, owner.module, frozenset(), 1, once))
+    except _NotPure:
+        return NOCONST
+    if isinstance(v, bool) or not isinstance(v, (int, str, bytes)):
+        return NOCONST
+    cache[key] = v
+    return v
+
+
+def _format_to_fstring(e: ast.AST) -> ast.AST:
+    """'<template>'.format(a, b, k=c) -> the f-string with the same fields (str.format and f-strings share the format
+    specification language; only plain positional / keyword fields without attribute or index access, each argument
+    expression used at most once so that nothing is evaluated twice)."""
+    import string
+
+    def build(template: str, args: list, kw: dict, auto: list, used: list, depth: int) -> list | None:
+        out: list = []
+        try:
+            parsed = list(string.Formatter().parse(template))
+        except ValueError:
+            return None
+        for lit, field, spec, conv in parsed:
+            if lit:
+                out.append(ast.Constant(value=lit))
+            if field is None:
+                continue
+            if field == "":
+                if auto[0] is None:
+                    return None
+                idx, auto[0] = auto[0], auto[0] + 1
+                val = args[idx] if idx < len(args) else None
+            elif field.isdigit():
+                auto[0] = None if auto[0] in (None, 0) else -1
+                if auto[0] == -1:
+                    return None
+                val = args[int(field)] if int(field) < len(args) else None
+            elif field.isidentifier():
+                val = kw.get(field)
+            else:
+                return None
+            if val is None or any(val is u for u in used):
+                return None
+            used.append(val)
+            fspec = None
+            if spec:
+                if depth > 0:
+                    return None
+                inner = build(spec, args, kw, auto, used, depth + 1)
+                if inner is None:
+                    return None
+                fspec = ast.JoinedStr(values=inner)
+            out.append(ast.FormattedValue(value=val, conversion=ord(conv) if conv else -1, format_spec=fspec))
+        return out
+
+    class T(ast.NodeTransformer):
+        def visit_Call(self, n):
+            self.generic_visit(n)
+            if isinstance(n.func, ast.Attribute) and n.func.attr == "format" and isinstance(const_value(n.func.value), str) \
+                    and not any(isinstance(a, ast.Starred) for a in n.args) and all(k.arg is not None for k in n.keywords):
+                parts = build(const_value(n.func.value), list(n.args), {k.arg: k.value for k in n.keywords}, [0], [], 0)
+                if parts is not None and any(isinstance(x, ast.FormattedValue) for x in parts) \
+                        and sum(isinstance(x, ast.FormattedValue) for x in ast.walk(ast.JoinedStr(values=parts))) == len(n.args) + len(n.keywords):
+                    return ast.copy_location(ast.JoinedStr(values=parts), n)
+            return n
+    return T().visit(e)
+
+
+_FOLD_CALLS = {"len", "struct.calcsize", "calcsize", "int", "str", "format", "max", "min", "abs", "divmod", "pow", "ord", "chr", "bytes.fromhex",
+               "binascii.unhexlify", "unhexlify", "binascii.hexlify", "hexlify"}
+_FOLD_METHODS = {"format", "zfill", "rjust", "ljust", "upper", "lower", "join", "hex", "bit_length", "encode"}
+
+
+def _fold_consts(ctx: Ctx, fi: FuncInfo, e: ast.AST) -> ast.AST:
+    """A copy of expression e (of function fi) in which every sub-expression that is a constant of the program is replaced
+    by the literal it evaluates to: module-level names bound once (also imported ones, `8 * WIDTH_BYTES`,
+    struct.calcsize(FMT), STRUCT.size, len(CONSTANT), hashlib.sha1().digest_size, f"0{BITS}b", "%d" % N ...).  Names the
+    function (or a lambda / comprehension inside e) binds are left alone.  A constant expression and its value are
+    interchangeable everywhere, so every recogniser may work on the folded expression."""
+    hide = set(fi.params()) | _bound_locals(fi.node)
+    for n in ast.walk(e):
+        if isinstance(n, ast.Lambda):
+            hide |= {a.arg for a in [*n.args.posonlyargs, *n.args.args, *n.args.kwonlyargs, *filter(None, [n.args.vararg, n.args.kwarg])]}
+        elif isinstance(n, ast.comprehension):
+            hide |= _target_names(n.target)
+        elif isinstance(n, ast.NamedExpr):
+            hide |= _target_names(n.target)
+    cm = _ConstMap(ctx.repo, fi.module, frozenset(hide))
+    e = _format_to_fstring(_copy(e))
+
+    def attempt(n: ast.AST) -> ast.AST:
+        try:
+            v = _pure_eval(n, {}, cm)
+        except _NotPure:
+            return n
+        if isinstance(v, bool) or not isinstance(v, (int, str, bytes)) or (isinstance(v, (str, bytes)) and len(v) > 4096):
+            return n
+        return ast.copy_location(ast.Constant(value=v), n)
+
+    def lit(x: ast.AST) -> bool:
+        return isinstance(x, ast.Constant)
+
+    class T(ast.NodeTransformer):
+        def visit_Name(self, n):
+            return attempt(n) if isinstance(n.ctx, ast.Load) and n.id in cm else n
+
+        def visit_Attribute(self, n):
+            if isinstance(n.ctx, ast.Load) and n.attr in ("size", "digest_size", "block_size"):
+                new = attempt(n)
+                if new is not n:
+                    return new
+            if isinstance(n.ctx, ast.Load) and isinstance(n.value, ast.Name) and n.value.id in ("self", "cls") and fi.cls is not None \
+                    and fi.params()[:1] == [n.value.id] and n.value.id not in _bound_locals(fi.node):
+                v = _class_const(ctx, fi.cls, n.attr)
+                return n if v is NOCONST else ast.copy_location(ast.Constant(value=v), n)
+            if isinstance(n.ctx, ast.Load) and isinstance(n.value, ast.Name) and n.value.id not in hide:
+                r = ctx.repo.resolve_name(fi.module, n.value.id)
+                if hasattr(r, "mro") and _module_bindings(fi.module, n.value.id) == 1:
+                    v = _class_const(ctx, r, n.attr)                      # ClassName.WIDTH
+                    return n if v is NOCONST else ast.copy_location(ast.Constant(value=v), n)
+                if isinstance(r, tuple) and r[0] == "module" and r[1] is not None and _module_bindings(fi.module, n.value.id) == 1:
+                    sub = _ConstMap(ctx.repo, r[1], frozenset(), 1)       # constants_module.WIDTH
+                    if n.attr in sub:
+                        try:
+                            v = _pure_eval(ast.Name(id=n.attr, ctx=ast.Load()), {}, sub)
+                        except _NotPure:
+                            return n
+                        if not isinstance(v, bool) and isinstance(v, (int, str, bytes)):
+                            return ast.copy_location(ast.Constant(value=v), n)
+                    return n
+            self.generic_visit(n)
+            return n
+
+        def visit_BinOp(self, n):
+            self.generic_visit(n)
+            return attempt(n) if lit(n.left) and lit(n.right) else n
+
+        def visit_FormattedValue(self, n):
+            n.value = self.visit(n.value)
+            if isinstance(n.format_spec, ast.JoinedStr):
+                spec = self.visit_JoinedStr(n.format_spec)
+                n.format_spec = spec if isinstance(spec, ast.JoinedStr) else ast.copy_location(ast.JoinedStr(values=[spec]), n.format_spec)
+            return n
+
+        def visit_JoinedStr(self, n):
+            n.values = [self.visit(v) for v in n.values]
+            ok = all(lit(v) or (isinstance(v, ast.FormattedValue) and lit(v.value) and (v.format_spec is None or
+                     (isinstance(v.format_spec, ast.JoinedStr) and all(lit(x) for x in v.format_spec.values)))) for v in n.values)
+            return attempt(n) if ok and n.values else n
+
+        def visit_Call(self, n):
+            self.generic_visit(n)
+            if n.keywords or not all(lit(a) for a in n.args):
+                return n
+            c = chain(n.func) if isinstance(n.func, (ast.Name, ast.Attribute)) else None
+            if c in _FOLD_CALLS and not (isinstance(n.func, ast.Name) and n.func.id in hide) and n.args:
+                return attempt(n)
+            if isinstance(n.func, ast.Attribute) and lit(n.func.value) and n.func.attr in _FOLD_METHODS:
+                return attempt(n)
+            return n
+    return T().visit(_copy(e))
 
 
 def _agrees_on_samples(ctx: Ctx, fi: FuncInfo, reference, samples: list[tuple]) -> bool | None:
@@ -4113,7 +4459,7 @@ def _twenty_bytes(full: ast.AST) -> bool:
 
 def rule_refresh_id(ctx: Ctx) -> None:
     repo = ctx.repo
-    fi = repo.method("Bucket", "generate_id", RT)
+    fi = _anchor_method(ctx, "Bucket", "generate_id")
     rets = [r for r in walk_no_nested(fi.node) if isinstance(r, ast.Return)]
     ctx.anchor(rets, "return in generate_id")
     # the returned value as an expression over self.prefix_id: program-order substitution (handles `x = p; if w: x += s`),
@@ -4172,7 +4518,9 @@ def rule_refresh_id(ctx: Ctx) -> None:
             def visit_Name(self, n):
                 return self.visit(_copy(binds[n.id])) if isinstance(n.ctx, ast.Load) and n.id in binds else n
         return W().visit(_copy(x))
-    values = [(r, tuple((_K().visit(dewalrus(_copy(t))), pol) for t, pol in conds), _concat_joins(_K().visit(dewalrus(_copy(full))))) for r, conds, full in values]
+    # constants of the program (class attributes, module-level names, widths derived from them) stand for their values
+    values = [(r, tuple((_fold_consts(ctx, fi, _K().visit(dewalrus(_copy(t)))), pol) for t, pol in conds),
+               _concat_joins(_fold_consts(ctx, fi, _K().visit(dewalrus(_copy(full)))))) for r, conds, full in values]
 
     for r in rets:
         alts = [a for rr, conds, full in values if rr is r for a in _alternatives(full, conds)]
@@ -4190,6 +4538,8 @@ def rule_refresh_id(ctx: Ctx) -> None:
             packed = _bytewise_pack(full)
             if any(_leads_with_prefix(n.args[0]) for n in ints) or _shifted_prefix(full, conds) or (packed is not None and _leads_with_prefix(packed)):
                 pass
+            elif _prefix_empty(conds):
+                pass                                                      # on this path the prefix has no characters: every id starts with it
             elif any(string_builder(n.args[0]) and "self.prefix_id" in norm(n.args[0]) for n in ints) or \
                     any(isinstance(n, ast.BinOp) and isinstance(n.op, (ast.LShift, ast.BitOr)) for n in ast.walk(full)) and not ints:
                 lead = False                                              # the prefix is in the bit string / integer, but not as its leading part
@@ -4232,13 +4582,52 @@ def rule_own_id_fixed(ctx: Ctx) -> None:
     def inside(fi) -> bool:
         return fi is not None and (id(fi.node) in allowed or any(id(a) in allowed for a in ancestors(fi.node)))
     seen = 0
-    for m, fi, a in repo.attribute_uses("my_node_id"):
+    # my_node_id as a read-only view: `@property def my_node_id(self): return self.<holder>.<field>` - the identifier is what
+    # that expression reads, so the attributes on that path are the ones that must not be rewritten: <holder> on the table
+    # (only while it is constructed), <field> only in the constructor of the holder class (or while the table is constructed)
+    rtc = repo.cls("RoutingTable", RT)
+    cands = [f for c in rtc.mro() for f in c.module.all_functions if f.cls is c and f.name == "my_node_id"]
+    getter = next((f for f in cands if any(d.split(".")[-1] in ("property", "cached_property") for d in f.decorator_names())), cands[0] if cands else None)
+    watched: list[tuple[str, set[int]]] = [("my_node_id", set())]
+    if getter is not None:
+        path = None
+        if any(d.split(".")[-1] in ("property", "cached_property") for d in getter.decorator_names()) and len(getter.params()) == 1:
+            alts = _return_alternatives(getter, ctx)
+            if len(alts) == 1:
+                c = chain(strip_cast(alts[0])) or ""
+                parts = c.split(".")
+                if parts[0] == getter.params()[0] and 2 <= len(parts) <= 3 and all(x.isidentifier() for x in parts):
+                    path = parts[1:]
+        if path is None:
+            _und(ctx, "split-own-path", getter, getter.node, "RoutingTable.my_node_id is a method / property whose value is not a plain attribute path "
+                 "self.<holder>.<field>: what the own identifier reads is not decided")
+            return
+        watched = [(path[0], set())]
+        if len(path) == 2:
+            holder_inits: set[int] = set()
+            for fr, n in cl.nodes:
+                for t, v in _assign_targets(n):
+                    if isinstance(t, ast.Attribute) and t.attr == path[0] and fr.ntr(t.value, expand=False) == "self" and v is not None:
+                        hc = repo.resolve_class_expr(fr.fi.module, strip_cast(v).func) if isinstance(strip_cast(v), ast.Call) else None
+                        hi = hc.lookup("__init__") if hc is not None else None
+                        if hi is not None:
+                            holder_inits |= _Closure(ctx, hi).visited
+            watched.append((path[1], holder_inits))
+        setters = [f for f in cands if f is not getter]
+        for f in setters:
+            ctx.check(False, "split-own-path", f, f.node, "my_node_id has a setter / deleter", "RoutingTable.my_node_id can be rewritten after the table was built "
+                      "(the property has a setter): splits no longer follow the path of one own identifier")
+    for attr, extra_ok in watched:
+      for m, fi, a in repo.attribute_uses(attr):
         if not isinstance(a.ctx, (ast.Store, ast.Del)):
             continue
         seen += 1
         ok = inside(fi) and isinstance(a.value, ast.Name) and a.value.id == "self" and fi is not None and fi.cls is not None and fi.cls.name == "RoutingTable"
         if ok and fi.node is not init.node:
             ok = all(inside(g) for _m, g, _c in repo.callers_of_name(fi.name))
+        if not ok and fi is not None and extra_ok and (id(fi.node) in extra_ok or any(id(x) in extra_ok for x in ancestors(fi.node))) \
+                and isinstance(a.value, ast.Name) and a.value.id == "self":
+            ok = True                                                     # the holder's own constructor fills the field
         ctx.check(ok, "split-own-path", fi if fi is not None else m.relpath, enclosing_stmt(a), f"my_node_id written in {fi.qualname if fi is not None else m.relpath}",
                   "the identifier whose path decides which buckets may be split (RoutingTable.my_node_id, tested by bucket.owns(self.my_node_id) in "
                   "RoutingTable.add) is rewritten after the table was built: buckets split along the old identifier's path stay split, the new "
@@ -4249,6 +4638,56 @@ def rule_own_id_fixed(ctx: Ctx) -> None:
                       "RoutingTable.my_node_id is rewritten after the table was built: splits no longer follow the path of one own identifier")
     if not seen:
         ctx.note("no assignment to an attribute my_node_id anywhere: the own identifier cannot change after construction (field / constructor argument)")
+
+
+def rule_lookup_atomic(ctx: Ctx) -> None:
+    """RoutingTable.add looks a bucket up in the trie, lets it add / split, and writes the halves back under the looked-up
+    bucket's prefix.  That is a read-modify-write of the tree: it keeps the tree a partition only if nobody restructures
+    the tree between the lookup and the write-back (add is called from the strategy thread and from the asyncio thread).
+    So every use of self.trie in add's call tree - the lookup in get_bucket included - lies inside ONE `with self.lock:`
+    region (the lock is re-entrant: the recursive retry nests inside the same region)."""
+    add = ctx.repo.method("RoutingTable", "add", RT)
+    cl = _Closure(ctx, add, maxdepth=4)
+
+    def region(fr: _Frame, n: ast.AST):
+        """the outermost `with self.lock:` statement around n, up the call tree"""
+        found = None
+        site = n
+        while fr is not None:
+            for a in ancestors(site):
+                if a is fr.fi.node:
+                    break
+                if isinstance(a, ast.With) and any(fr.ntr(it.context_expr) == "self.lock" for it in a.items):
+                    found = a
+            site, fr = fr.site, fr.parent
+        return found
+    uses = [(fr, n) for fr, n in cl.nodes if isinstance(n, ast.Attribute) and n.attr == "trie" and fr.ntr(n, expand=False) == "self.trie"]
+    withs = [n for fr, n in cl.nodes if isinstance(n, ast.With) and any(fr.ntr(it.context_expr) == "self.lock" for it in n.items)]
+    if not uses:
+        _und(ctx, "lookup-under-lock", add, add.node, "no use of self.trie is recognisable in RoutingTable.add or the helpers it calls")
+        return
+    if not withs:
+        manual = any(isinstance(n, ast.Call) and isinstance(n.func, ast.Attribute) and n.func.attr in ("acquire", "__enter__") for _fr, n in cl.nodes)
+        _verdict(ctx, None if manual else False, "lookup-under-lock", add, add.node, "RoutingTable.add works on the tree under self.lock",
+                 "RoutingTable.add reads and restructures the bucket tree without holding the table lock: a concurrent add can split the bucket in between "
+                 "and the stale halves are written back over the newer subtree (buckets no longer prefix-free)",
+                 unknown="the table lock is taken with acquire() / release() instead of a with statement: which statements it covers is not decided")
+        return
+    regions = {}
+    for fr, n in uses:
+        r = region(fr, n)
+        regions.setdefault(id(r) if r is not None else None, []).append((fr, n))
+    outside = regions.get(None, [])
+    for fr, n in outside[:1]:
+        st = cl.lifted(fr, n, cl.root)
+        ctx.check(False, "lookup-under-lock", add, enclosing_stmt(st) if not isinstance(st, ast.stmt) else st, "every use of self.trie in add's call tree is under self.lock",
+                  f"RoutingTable.add uses the bucket tree (`{norm(enclosing_stmt(n))[:80]}` in {fr.fi.qualname}) outside the `with self.lock:` region in which it adds / splits "
+                  "and writes the halves back: lookup and write-back are not atomic, a concurrent add can split the looked-up bucket in between - add then "
+                  "splits the orphaned bucket again and stores its stale halves over the newer subtree (buckets no longer prefix-free and complete)")
+    if not outside:
+        ctx.check(len(regions) == 1, "lookup-under-lock", add, add.node, "lookup, split and write-back of RoutingTable.add lie in one `with self.lock:` region",
+                  "RoutingTable.add releases the table lock between looking a bucket up and writing its halves back (several separate `with self.lock:` "
+                  "regions): a concurrent add can restructure the tree in between")
 
 
 def rule_refresh_caller(ctx: Ctx) -> None:
@@ -5200,7 +5639,203 @@ def _chain_up(par: dict, n: ast.AST):
         n = par.get(id(n))
 
 
+def _anyall_operands(m, c: ast.AST) -> list[ast.AST] | None:
+    """all(...) / any(...) over a collection that is written out: a literal tuple / list of side-effect free tests, or a
+    generator `test(x) for x in <literal tuple / list / set, or a module constant bound once to one>` (unrolled).  The
+    operands, in order; None when the call is something else."""
+    if not (isinstance(c, ast.Call) and isinstance(c.func, ast.Name) and c.func.id in ("all", "any") and len(c.args) == 1 and not c.keywords
+            and c.func.id not in m.functions and c.func.id not in m.constants and c.func.id not in m.imports and c.func.id not in m.classes):
+        return None
+
+    def pure(e: ast.AST) -> bool:
+        for n in ast.walk(e):
+            if isinstance(n, ast.Call):
+                if not (call_name(n) in _PURE_METHODS or chain(n.func) in _PURE_CALLS):
+                    return False
+            elif not isinstance(n, (ast.Name, ast.Attribute, ast.Constant, ast.Subscript, ast.Compare, ast.BoolOp, ast.UnaryOp, ast.BinOp, ast.IfExp, ast.Tuple,
+                                    ast.expr_context, ast.cmpop, ast.boolop, ast.unaryop, ast.operator, ast.Slice)):
+                return False
+        return True
+
+    def literal(e: ast.AST, depth: int = 2) -> list[ast.AST] | None:
+        e = strip_cast(e)
+        if isinstance(e, ast.Call) and chain(e.func) in ("frozenset", "tuple", "list", "set") and len(e.args) == 1 and not e.keywords:
+            return literal(e.args[0], depth)
+        if isinstance(e, (ast.Tuple, ast.List, ast.Set)) and not any(isinstance(x, ast.Starred) for x in e.elts):
+            return list(e.elts)
+        if isinstance(e, ast.Name) and depth > 0 and e.id in m.constants and _module_bindings(m, e.id) == 1:
+            return literal(m.constants[e.id], depth - 1)
+        return None
+    a = strip_cast(c.args[0])
+    ops: list[ast.AST] | None = None
+    if isinstance(a, (ast.Tuple, ast.List)):
+        ops = literal(a)
+    elif isinstance(a, (ast.GeneratorExp, ast.ListComp)) and len(a.generators) == 1 and not a.generators[0].ifs and not a.generators[0].is_async \
+            and isinstance(a.generators[0].target, ast.Name):
+        col = literal(a.generators[0].iter)
+        if col is not None and all(isinstance(x, (ast.Constant, ast.Name, ast.Attribute)) for x in col):
+            ops = [_subst(a.elt, {a.generators[0].target.id: x}) for x in col]
+    if ops is None or not 1 <= len(ops) <= 8 or not all(pure(x) for x in ops):
+        return None
+    return ops
+
+
+def _prep_anyall(m) -> int:
+    """all((a, b)) -> bool(a and b), any(t(x) for x in (p, q)) -> bool(t(p) or t(q)): the same truth value for side-effect
+    free operands (the eager form evaluates every operand, so whenever it does not raise neither does the lazy one)."""
+    count = [0]
+
+    class T(ast.NodeTransformer):
+        def visit_Call(self, n):
+            self.generic_visit(n)
+            ops = _anyall_operands(m, n)
+            if ops is None:
+                return n
+            count[0] += 1
+            test = ops[0] if len(ops) == 1 else ast.BoolOp(op=ast.And() if n.func.id == "all" else ast.Or(), values=[_copy(x) for x in ops])
+            up = getattr(n, "_parent", None)
+            if (isinstance(up, (ast.If, ast.While, ast.IfExp, ast.Assert)) and up.test is n) or (isinstance(up, ast.comprehension) and n in up.ifs) \
+                    or isinstance(up, ast.BoolOp) or (isinstance(up, ast.UnaryOp) and isinstance(up.op, ast.Not)):
+                return ast.copy_location(test, n)                         # only the truth value is used
+            return ast.copy_location(ast.Call(func=ast.Name(id="bool", ctx=ast.Load()), args=[test], keywords=[]), n)
+    T().visit(m.tree)
+    return count[0]
+
+
+def _wrapper_decorator(fn) -> ast.AST | None:
+    """fn is `def d(func): [@wraps(func)] def w(...): ...; return w` - a decorator that replaces the function by the
+    closure w: returns w's definition, else None."""
+    if not isinstance(fn, ast.FunctionDef) or fn.decorator_list:
+        return None
+    a = fn.args
+    if len(a.posonlyargs + a.args) != 1 or a.vararg or a.kwarg or a.kwonlyargs:
+        return None
+    body = [st for st in fn.body if not (isinstance(st, ast.Expr) and isinstance(st.value, ast.Constant))]
+    if len(body) != 2 or not isinstance(body[0], _FUNCS) or not (isinstance(body[1], ast.Return) and isinstance(body[1].value, ast.Name) and body[1].value.id == body[0].name):
+        return None
+    w = body[0]
+    for d in w.decorator_list:
+        if not (isinstance(d, ast.Call) and (chain(d.func) or "").split(".")[-1] == "wraps"):
+            return None
+    return w
+
+
+def _undecorated_source(repo, m) -> str | None:
+    """The module's source with every function that carries a private wrapper-decorator of the repository written out as
+    what the decoration denotes: the wrapper's body under the function's name and signature, the call of the wrapped
+    function inside it turned into a call of a new private function / method that holds the original body.  (Calling
+    `name` runs the wrapper, which runs the body where it calls `func`: exactly the decorated program.)  None when nothing
+    was rewritten; a decoration that does not have this plain shape is left as it is."""
+    try:
+        tree = ast.parse(m.src)
+    except SyntaxError:
+        return None
+    wrappers: dict[str, ast.AST] = {}
+    for st in tree.body:
+        if isinstance(st, ast.FunctionDef) and _wrapper_decorator(st) is not None:
+            wrappers[st.name] = st
+    for name in m.imports:
+        r = repo.resolve_name(m, name)
+        if isinstance(r, FuncInfo) and r.cls is None and _wrapper_decorator(r.node) is not None:
+            wrappers[name] = r.node
+    if not wrappers:
+        return None
+    changed = [0]
+
+    def rewrite(fn, clsname: str | None):
+        """[new definition of fn.name, definition of the body holder] or None"""
+        if not fn.decorator_list or not all(isinstance(d, ast.Name) and d.id in wrappers for d in fn.decorator_list) or len(fn.decorator_list) != 1:
+            return None
+        deco = wrappers[fn.decorator_list[0].id]
+        w = _copy(_wrapper_decorator(deco))
+        fparam = (deco.args.posonlyargs + deco.args.args)[0].arg
+        if isinstance(w, ast.AsyncFunctionDef) != isinstance(fn, ast.AsyncFunctionDef) or _is_generator(w) or _is_generator(fn):
+            return None
+        fa, wa = fn.args, w.args
+        fpos = [x.arg for x in fa.posonlyargs + fa.args]
+        wpos = [x.arg for x in wa.posonlyargs + wa.args]
+        if fa.vararg or fa.kwarg or fa.kwonlyargs or wa.kwonlyargs or wa.defaults or (clsname is not None and (not fpos or not wpos)):
+            return None
+        star, dstar = (wa.vararg.arg if wa.vararg else None), (wa.kwarg.arg if wa.kwarg else None)
+        if (star is None) != (dstar is None) and dstar is not None:
+            return None
+        if star is None and wpos != fpos:
+            return None
+        if star is not None and wpos != fpos[:len(wpos)]:
+            return None
+        rest = fpos[len(wpos):] if star is not None else []
+        holder = f"_c14body_{clsname + '_' if clsname else ''}{fn.name.strip('_')}"
+        ok = [True]
+
+        class T(ast.NodeTransformer):
+            def visit_Call(self, n):
+                if isinstance(n.func, ast.Name) and n.func.id == fparam:
+                    args = []
+                    for x in n.args:
+                        if isinstance(x, ast.Starred) and isinstance(x.value, ast.Name) and x.value.id == star:
+                            args.extend(ast.Name(id=r, ctx=ast.Load()) for r in rest)
+                        elif isinstance(x, ast.Starred):
+                            ok[0] = False
+                        else:
+                            args.append(self.visit(x))
+                    kws = []
+                    for k in n.keywords:
+                        if k.arg is None and isinstance(k.value, ast.Name) and k.value.id == dstar:
+                            continue
+                        if k.arg is None:
+                            ok[0] = False
+                        kws.append(ast.keyword(arg=k.arg, value=self.visit(k.value)))
+                    if clsname is not None:
+                        if not (args and isinstance(args[0], ast.Name) and args[0].id == wpos[0]):
+                            ok[0] = False
+                            return n
+                        return ast.copy_location(ast.Call(func=ast.Attribute(value=args[0], attr=holder, ctx=ast.Load()), args=args[1:], keywords=kws), n)
+                    return ast.copy_location(ast.Call(func=ast.Name(id=holder, ctx=ast.Load()), args=args, keywords=kws), n)
+                self.generic_visit(n)
+                return n
+
+            def visit_Name(self, n):
+                if n.id in (fparam, star, dstar):
+                    ok[0] = False                                         # the function object / the argument pack used for something else
+                return n
+        new_body = [T().visit(st) for st in w.body]
+        if not ok[0] or not any(isinstance(c, ast.Call) and ((isinstance(c.func, ast.Attribute) and c.func.attr == holder) or (isinstance(c.func, ast.Name) and c.func.id == holder))
+                                for st in new_body for c in ast.walk(st)):
+            return None
+        doc = [st for st in fn.body[:1] if isinstance(st, ast.Expr) and isinstance(st.value, ast.Constant) and isinstance(st.value.value, str)]
+        new_body = [st for st in new_body if not (isinstance(st, ast.Expr) and isinstance(st.value, ast.Constant))]
+        outer = type(fn)(name=fn.name, args=_copy(fa), body=[*map(_copy, doc), *new_body], decorator_list=[], returns=fn.returns, type_comment=None)
+        inner = type(fn)(name=holder, args=_copy(fa), body=fn.body, decorator_list=[], returns=fn.returns, type_comment=None)
+        for x in (outer, inner):
+            if hasattr(ast, "TypeAlias"):
+                x.type_params = []
+            ast.copy_location(x, fn)
+        changed[0] += 1
+        return [outer, inner]
+
+    def do_block(body: list, clsname: str | None) -> list:
+        out = []
+        for st in body:
+            if isinstance(st, ast.ClassDef) and clsname is None:
+                st.body = do_block(st.body, st.name)
+            new = rewrite(st, clsname) if isinstance(st, _FUNCS) else None
+            out.extend(new if new is not None else [st])
+        return out
+    tree.body = do_block(tree.body, None)
+    if not changed[0]:
+        return None
+    ast.fix_missing_locations(tree)
+    try:
+        src = ast.unparse(tree)
+        compile(src, m.relpath, "exec")
+    except Exception:  # noqa: BLE001 - the rewrite is optional
+        return None
+    return src + "\n"
+
+
 def _prep_triggers(m) -> bool:
+    if any(_anyall_operands(m, c) is not None for c in ast.walk(m.tree) if isinstance(c, ast.Call)):
+        return True
     mods = {mod.split(".")[0] for mod, _a in m.imports.values()}
     if mods & {"operator", "functools", "contextlib", "enum", "dataclasses"} or any(a == "NamedTuple" for _m, a in m.imports.values()):
         return True
@@ -5215,19 +5850,33 @@ def _private_view(ctx: Ctx) -> None:
     """Replace ctx.repo by a private copy in which the DHT modules are rewritten by the passes above - only when one of
     the modules uses a spelling the passes know; the unchanged tree is analysed as loaded."""
     repo = ctx.repo
-    rels = [r for r in (RT, TRIE) if r in repo.by_relpath and _prep_triggers(repo.by_relpath[r])]
-    if not rels or getattr(repo, "_c14_private", False):
+    if getattr(repo, "_c14_private", False):
+        return
+    undecorated = {}
+    for r in (RT, TRIE):
+        if r in repo.by_relpath and "@" in repo.by_relpath[r].src:
+            try:
+                src = _undecorated_source(repo, repo.by_relpath[r])
+            except AnalysisError:
+                raise
+            except Exception as e:  # noqa: BLE001 - optional rewrite
+                ctx.note(f"decorator expansion skipped: {type(e).__name__}: {e}")
+                src = None
+            if src is not None:
+                undecorated[r] = src
+    rels = [r for r in (RT, TRIE) if r in repo.by_relpath and (r in undecorated or _prep_triggers(repo.by_relpath[r]))]
+    if not rels:
         return
     from ..model import Repo
     ov = dict(repo.overrides)
     for r in rels:
-        ov[r] = repo.by_relpath[r].src + _PRIVATE_MARK
+        ov[r] = undecorated.get(r, repo.by_relpath[r].src) + _PRIVATE_MARK
     try:
         priv = Repo(repo.root, overrides=ov, include_tests=any(r.startswith("ipv8/test/") for r in repo.by_relpath), extra_dirs=repo.extra_dirs)
         for r in rels:
             m = priv.by_relpath[r]
             for _round in range(3):
-                n = _prep_operator(m) + _prep_enums(m) + _prep_match(m) + _prep_records(m)
+                n = _prep_operator(m) + _prep_enums(m) + _prep_match(m) + _prep_records(m) + _prep_anyall(m)
                 set_parents(m.tree)
                 n += _prep_booltests(m)
                 ast.fix_missing_locations(m.tree)
@@ -5250,6 +5899,7 @@ def run(ctx: Ctx) -> None:
     rule_closest(ctx)
     rule_refresh_id(ctx)
     rule_own_id_fixed(ctx)
+    rule_lookup_atomic(ctx)
     rule_refresh_caller(ctx)
     rule_trie(ctx)
     finish_undecided(ctx)
@@ -5324,6 +5974,9 @@ WITNESSES = [
             "        self.routing_tables[address_cls].my_node_id = self.get_my_node_id(node)\n"},
     {"name": "refresh id generated from a left-over loop variable", "file": "ipv8/dht/community.py", "rule": "refresh-id-in-bucket",
      "old": "await self.find_values(buckets[0].generate_id())", "new": "await self.find_values(bucket.generate_id())"},
+    {"name": "bucket looked up before the table lock is taken", "file": RT, "rule": "lookup-under-lock",
+     "old": "        with self.lock:\n            bucket = self.get_bucket(node.id)\n\n            # Add/update node\n",
+     "new": "        bucket = self.get_bucket(node.id)\n        with self.lock:\n            # Add/update node\n"},
     {"name": "capacity test spelled operator.le", "rule": "bucket-insert", "edits": [
         {"file": RT, "old": "from collections import deque\n", "new": "from collections import deque\nimport operator\n"},
         {"file": RT, "old": "        if len(self.nodes) < self.max_size:\n            self.nodes[node.id] = node",
